@@ -1,2 +1,49 @@
-(** C17 — statements only; see Proofs/. *)
-From RRSS Require Import Base.Outcome.
+(** C17 — The constant folder only reports values the interpreter would compute.
+    Statements only, closed by [exact]; proofs in Proofs/FoldLaws.v. *)
+From Coq Require Import List ZArith NArith Bool.
+From RRSS Require Import Base.Outcome Base.Chars Base.F64 Exec.Val Exec.Ops Front.Ast Front.Poetic Exec.Env Exec.Interp.
+From RRSS Require Import Analysis.Fold Proofs.FoldLaws.
+Import ListNotations.
+
+(** Whenever the numeric folder reports [c] for an expression, evaluating that expression in ANY
+    environment (whatever the rest of the program did), with any sufficiently large fuel, yields the
+    number [c] and leaves the environment (variables, pronoun, channels) untouched. *)
+Theorem C17_fold_num_sound :
+  forall prof e c, fold_num e = Ok c ->
+  forall env, exists f0, forall fuel, (f0 <= fuel)%nat -> produce_expr prof fuel e env = XOk (VNum c) env.
+Proof. exact fold_num_sound. Qed.
+
+(** A value is reported for every expression built solely from number literals, unary minus and
+    + - * / (including list operands) ... *)
+Theorem C17_fold_num_complete :
+  forall e, const_expr e = true -> exists c, fold_num e = Ok c.
+Proof. exact fold_num_complete. Qed.
+
+(** ... and never for an expression that reads a variable, a pronoun, an array element, a call or
+    a pop (or uses any other operator or literal kind). *)
+Theorem C17_fold_num_only_const :
+  forall e c, fold_num e = Ok c -> const_expr e = true.
+Proof. exact fold_num_only_const. Qed.
+
+Theorem C17_fold_str_only_literal :
+  forall e s, fold_str e = Ok s -> exists r, e = EPrimary (PLit (LString s) r).
+Proof. exact fold_str_only_literal. Qed.
+
+Theorem C17_fold_str_sound :
+  forall prof e s, fold_str e = Ok s ->
+  forall env fuel, (2 <= fuel)%nat -> produce_expr prof fuel e env = XOk (VStr s) env.
+Proof. exact fold_str_sound. Qed.
+
+(** Non-vacuity: a nested constant expression with list operands folds, and the interpreter
+    computes the same number; a zero product with a variable does not fold. *)
+Example C17_example :
+  let r := mkRange (mkLoc 1 0) (mkLoc 1 1) in
+  let n x := EPrimary (PLit (LNumber (f_of_Z x)) r) in
+  let e := EBinary OpMinus (n 10%Z) (EBinary OpMultiply (n 3%Z) (n 2%Z) [n 4%Z]) [EUnary UMinus (n 1%Z)] in
+  fold_num e = Ok (f_of_Z (-13)%Z) /\
+  produce_expr Debug 10%nat e (env_init (mkChan [] 0%N None [] None)) = XOk (VNum (f_of_Z (-13)%Z)) (env_init (mkChan [] 0%N None [] None)) /\
+  fold_num (EBinary OpMultiply (n 0%Z) (EPrimary (PIdent (IVar (Simple (lit "x"))) r)) []) = Err FUnknownValue.
+Proof. vm_compute. repeat split; reflexivity. Qed.
+
+Print Assumptions C17_fold_num_sound.
+Print Assumptions C17_fold_num_complete.
